@@ -210,6 +210,28 @@ func init() {
 					fs = append(fs, Failure{Kind: "oracle", Key: "classify-consumes-input", Desc: fmt.Sprintf("ClassifyStream consumed input (%s, bufio %d)", form.name, sz)})
 				}
 			}
+			// the classification is a function of the bytes, not of how the underlying reader cuts them
+			for _, sizes := range [][]int{{1}, {7}, {1 + h.rng.Intn(40), 1 + h.rng.Intn(90), 1 + h.rng.Intn(300)}} {
+				br := bufio.NewReaderSize(&segReader{data: form.data, sizes: sizes}, 4096)
+				var isArm bool
+				var b string
+				var mt saltpack.MessageType
+				var v saltpack.Version
+				var err error
+				if pe := guard(func() error { isArm, b, mt, v, err = saltpack.ClassifyStream(br); return nil }); pe != nil {
+					return append(fs, Failure{Kind: "oracle", Key: "classify-panic", Desc: clip(pe.Error(), 200)})
+				}
+				got := clsStr(mt, v, err)
+				if got != c.A["full"] || isArm != form.arm || (form.arm && b != brand) {
+					fs = append(fs, Failure{Kind: "oracle", Key: "classify-stream-fragmentation-dependent", Desc: fmt.Sprintf("ClassifyStream(%s, bufio 4096) over a reader delivering %v bytes per Read = armored %v brand %q %s; over an unfragmented reader: armored %v brand %q %s", form.name, sizes, isArm, b, got, form.arm, brand, c.A["full"])})
+					break
+				}
+				rest, _ := io.ReadAll(br)
+				if !bytes.Equal(rest, form.data) {
+					fs = append(fs, Failure{Kind: "oracle", Key: "classify-consumes-input", Desc: fmt.Sprintf("ClassifyStream consumed input (%s, reads of %v)", form.name, sizes)})
+					break
+				}
+			}
 			// convenience entry point = direct entry point
 			ring := makeRing(c.A["keys"], "all", c.A["signers"])
 			var plain io.Reader
@@ -220,7 +242,11 @@ func init() {
 			var b string
 			var err error
 			if pe := guard(func() error {
-				plain, mt, mki, spk, isArm, b, _, err = saltpack.ClassifyEncryptedStreamAndMakeDecoder(bytes.NewReader(form.data), ring, nil)
+				var src io.Reader = bytes.NewReader(form.data)
+				if h.rng.Intn(2) == 0 {
+					src = &segReader{data: append([]byte{}, form.data...), sizes: []int{1 + h.rng.Intn(60), 1 + h.rng.Intn(500)}}
+				}
+				plain, mt, mki, spk, isArm, b, _, err = saltpack.ClassifyEncryptedStreamAndMakeDecoder(src, ring, nil)
 				return nil
 			}); pe != nil {
 				return append(fs, Failure{Kind: "oracle", Key: "classify-panic", Desc: clip(pe.Error(), 200)})
